@@ -173,7 +173,8 @@ func NewIVFPQIndex(dim int, distanceKind DistanceKind, nlist int, m int, nbits i
 // Residuals have much less variance, enabling better compression.
 //
 // Parameters:
-//   - vectors: Training vectors (need at least nlist*10)
+//   - vectors: Training vectors (need at least nlist*10, and at least 2^Nbits
+//     so that every PQ subspace can be given its full codebook)
 //
 // Returns:
 //   - error: Returns error if insufficient training data
@@ -184,6 +185,11 @@ func (idx *IVFPQIndex) Train(vectors []VectorNode) error {
 	// Validate sufficient training data
 	if len(vectors) < idx.nlist*10 {
 		return fmt.Errorf("need at least %d vectors for training", idx.nlist*10)
+	}
+	// Each PQ codebook holds Ksub centroids; k-means cannot produce more
+	// centroids than it is given vectors (same requirement as PQIndex.Train).
+	if len(vectors) < idx.Ksub {
+		return fmt.Errorf("need at least %d vectors for training", idx.Ksub)
 	}
 
 	// Validate dimensionality
